@@ -292,3 +292,12 @@ Require Copia.Proofs.TiePushCommand.
 Theorem C04_push_command_is_translation_of_source : TiePushCommand.push_command_is_translation.
 Proof. exact TiePushCommand.push_command_is_translation_holds. Qed.
 Print Assumptions C04_push_command_is_translation_of_source.
+
+(** The local scan ([meta_of]) is the translation of meta.rs `mtime_secs` / `discover_local_with_meta` as the source has
+    them now: every listed file that can be stat-ed enters the map with its size and its modification time in WHOLE
+    seconds since the epoch (sub-second part dropped; before the epoch or unknown: 0); a file that cannot be stat-ed is
+    skipped (Gen/LocalScanGen.v, Proofs/TieLocalScan.v). *)
+Require Copia.Proofs.TieLocalScan.
+Theorem C04_local_scan_is_translation_of_source : TieLocalScan.local_scan_is_translation.
+Proof. exact TieLocalScan.local_scan_is_translation_holds. Qed.
+Print Assumptions C04_local_scan_is_translation_of_source.
